@@ -438,6 +438,7 @@ func WorkerMain(propID, tier string, idx, n, seed int, deadlineUnix int64, after
 	}
 	w := &worker{prop: p, tier: tier, idx: idx, n: n, seed: seed, deadline: time.Unix(deadlineUnix, 0),
 		out: bufio.NewWriterSize(os.Stdout, 1<<16), perKey: map[string]int{}, outcomes: map[string]struct{}{}}
+	currentWorker = w
 	if regionPath != "" {
 		f, err := os.OpenFile(regionPath, os.O_RDWR|os.O_CREATE, 0o644)
 		if err == nil {
@@ -567,6 +568,20 @@ func WorkerMain(propID, tier string, idx, n, seed int, deadlineUnix int64, after
 	}
 	w.emit(map[string]interface{}{"t": "done", "stats": w.stats, "outcomes": outs, "samples": w.samples, "perkey": w.perKey})
 	w.flush()
+}
+
+var currentWorker *worker
+
+// Fatal reports a harness error from anywhere in a worker and exits with
+// status 2 (never read as a violation).
+func Fatal(msg string) {
+	if w := currentWorker; w != nil {
+		w.emit(map[string]interface{}{"t": "fatal", "msg": msg})
+		w.flush()
+	} else {
+		fmt.Fprintln(os.Stderr, "fatal:", msg)
+	}
+	os.Exit(2)
 }
 
 // Guard runs f and turns a panic raised below /repo code into a violation that
